@@ -199,14 +199,21 @@ func (sw *SprayAndWait) ReportFailure(bp BundleDescriptor, sender cla.Convergenc
 		return
 	}
 
-	metadata.remainingCopies = metadata.remainingCopies + 1
-
+	// Only a peer which was selected by SenderForBundle took a copy. A failed direct delivery to the bundle's
+	// destination did not cost a copy and must not give one back.
+	var tookCopy bool
 	for i := 0; i < len(metadata.sent); i++ {
 		if metadata.sent[i] == sender.GetPeerEndpointID() {
 			metadata.sent = append(metadata.sent[:i], metadata.sent[i+1:]...)
+			tookCopy = true
 			break
 		}
 	}
+	if !tookCopy {
+		return
+	}
+
+	metadata.remainingCopies = metadata.remainingCopies + 1
 	verifhook.At("routing.spray.reportfailure.rmw")
 
 	sw.bundleData[bp.Id] = metadata
@@ -409,16 +416,23 @@ func (bs *BinarySpray) ReportFailure(bp BundleDescriptor, sender cla.Convergence
 		return
 	}
 
-	// The copies announced in the failed transmission are still held by this node.
-	metadata.remainingCopies = metadata.remainingCopies + binarySprayBlock.RemainingCopies()
-	binarySprayBlock.SetCopies(metadata.remainingCopies)
-
+	// Only a peer which was selected by SenderForBundle was announced copies. A failed direct delivery to the bundle's
+	// destination did not hand over copies and must not give any back.
+	var tookCopies bool
 	for i := 0; i < len(metadata.sent); i++ {
 		if metadata.sent[i] == sender.GetPeerEndpointID() {
 			metadata.sent = append(metadata.sent[:i], metadata.sent[i+1:]...)
+			tookCopies = true
 			break
 		}
 	}
+	if !tookCopies {
+		return
+	}
+
+	// The copies announced in the failed transmission are still held by this node.
+	metadata.remainingCopies = metadata.remainingCopies + binarySprayBlock.RemainingCopies()
+	binarySprayBlock.SetCopies(metadata.remainingCopies)
 	verifhook.At("routing.binaryspray.reportfailure.rmw")
 
 	bs.bundleData[bp.Id] = metadata
